@@ -66,12 +66,12 @@ def main():
         ex, wall = (int(m.group(1)), int(m.group(2))) if m else (None, None)
         reasons = re.findall(r"reason: (.*)", ev.stdout)[:2]
         meta = json.load(open(d + "/meta.json"))
-        meta["verified_by_maintainer"] = {"demo": demo, "check": "./seed_eval.sh %s -> ./check %s --tier quick exit %s, %s s" % (name, p, ex, wall),
+        meta["verified_by_maintainer"] = {"demo": demo, "check": "./seed_eval.sh %s -> ./check %s --tier quick exit %s, %s s" % (name, p[:3], ex, wall),
                                           "first_reasons": reasons, "note": ""}
         json.dump(meta, open(d + "/meta.json", "w"), indent=1)
         summ = meta.get("summary", "")[:160].replace("|", "/").replace("\n", " ")
         r = reasons[0][:170].replace("|", "/") if reasons else ""
-        rows.append("| `seeded/%s`: %s | %s | `./check %s` — %s | quick, exit %s, %s s |" % (name, summ, p, p, r, ex, wall))
+        rows.append("| `seeded/%s`: %s | %s | `./check %s` — %s | quick, exit %s, %s s |" % (name, summ, p[:3], p[:3], r, ex, wall))
         print("%s: demo patched [%s] clean [%s]; check exit=%s wall=%ss %s" % (name, demo.get("patched"), demo.get("clean"), ex, wall, (reasons[0][:200] if reasons else "NOT REPORTED")))
     sh("rm -rf " + clean)
     open("/tmp/%s_rows.md" % prefix, "w").write("\n".join(rows) + "\n")
